@@ -31,10 +31,11 @@ fn(A + '_right_descent', S_, serves=['C19', 'C05'], pure=True, only_tu=True,
 fn(A + '_locate_peak', S_, serves=['C19', 'C05'], pure=True,
    requires=[('index', 'And(spec.len >= 1, 0 <= idx, idx < spec.len)')], throws='False',
    ensures=[('range', 'And(0 <= result, result < spec.len)'),
-            ('local_maximum', 'And(Or(result == 0, spec[result - 1] <= spec[result]), Or(result == spec.len - 1, spec[result] >= spec[result + 1]))')],
-   loops={1: {'inv': [('range', 'And(0 <= peak, peak <= idx, n == spec.len)')], 'dec': 'peak'},
+            ('local_maximum', 'And(Or(result == 0, spec[result - 1] <= spec[result]), Or(result == spec.len - 1, spec[result] >= spec[result + 1]))'),
+            ('stays_on_a_local_maximum', 'Implies(And(Or(idx == 0, spec[idx - 1] <= spec[idx]), Or(idx == spec.len - 1, spec[idx] >= spec[idx + 1])), result == idx)')],
+   loops={1: {'inv': [('range', 'And(0 <= peak, peak <= idx, n == spec.len)'), ('stays', 'Implies(And(Or(idx == 0, spec[idx - 1] <= spec[idx]), Or(idx == spec.len - 1, spec[idx] >= spec[idx + 1])), peak == idx)')], 'dec': 'peak'},
           2: {'inv': [('range', 'And(0 <= peak, peak <= n - 1, n == spec.len)'),
-                      ('left_ok', 'Or(peak == 0, spec[peak - 1] <= spec[peak])')],
+                      ('left_ok', 'Or(peak == 0, spec[peak - 1] <= spec[peak])'), ('stays', 'Implies(And(Or(idx == 0, spec[idx - 1] <= spec[idx]), Or(idx == spec.len - 1, spec[idx] >= spec[idx + 1])), peak == idx)')],
               'dec': 'n - peak'}})
 
 # scalar max / min templates of math.h on integers
